@@ -132,16 +132,18 @@ func (f *Fetcher) Prepare(ctx context.Context) (*ct.SignedTreeHead, error) {
 // finished). For each successfully fetched batch, runs the fn callback.
 func (f *Fetcher) Run(ctx context.Context, fn func(EntryBatch)) error {
 	klog.V(1).Infof("%s: Starting up Fetcher...", f.uri)
-	if _, err := f.Prepare(ctx); err != nil {
-		return err
-	}
-
+	// Register the cancel function before the (possibly slow) Prepare call, so
+	// that a Stop issued while the first STH is being fetched is not lost.
 	cctx, cancel := context.WithCancel(ctx)
 	defer cancel()
 
 	f.mu.Lock()
 	f.cancel = cancel
 	f.mu.Unlock()
+
+	if _, err := f.Prepare(ctx); err != nil {
+		return err
+	}
 
 	// Use a separately-cancelable context for the range generator, so we can
 	// close it down (in Stop) but still let the fetchers below run to
